@@ -37,8 +37,8 @@ def plan(tier):
 
 def describe(tier):
     return {
-        'rule': 'circuit of F(n,k,{NOT,AND,GT,XOR,TRUE,FALSE}) x output policy x {no block, block over the last gate}: '
-        'rename_gate(every node -> fresh label), replace_inputs(every assignment of {keep,True,False} to the inputs), '
+        'rule': 'circuit of F(n,k,{NOT,AND,GT,XOR,TRUE,FALSE}) x output policy x {no block, block over the last gate whose first input is both block input and block output}: '
+        'rename_gate(every node -> fresh label), replace_inputs(every assignment of {keep,True,False} to the inputs; also after the input order was changed by set_inputs / rename), '
         'remove_gate(every node), replace_subcircuit(every pair of disjoint node sets I (|I|<=2, 3 when n+k<=4) and O (|O|<=2) x '
         'replacement in {fresh copy of the slice, canonical mux-tree re-synthesis, copy with double negation} x boundary labels '
         '{kept, fresh}). Oracle: reference truth tables positionally, netlist model of rename / cofactor, well-formedness; '
@@ -66,6 +66,11 @@ def check_rename(n, gates, outs, blk, acc, net, ref):
             acc.traces += 1
             case = lambda: {**space.spec_json(n, gates, outs), 'block': blk, 'op': ['rename_gate', l, new]}  # noqa: E731
             c = _build(n, gates, outs, blk)
+            try:  # query before mutating: remembered results would have to be invalidated
+                c.get_gates_truth_table()
+                c.get_truth_table()
+            except Exception:  # noqa: BLE001
+                pass
             ok, r = guarded(acc, 'rename_gate', case, c.rename_gate, l, new)
             if not ok:
                 continue
@@ -89,6 +94,9 @@ def check_rename(n, gates, outs, blk, acc, net, ref):
             gt = got.tables()
             if any(gt[sub(k)] != ref[k] for k in net.gates):
                 acc.violation('rename_gate/truth-table-changed', case, '')
+            ok, lib = guarded(acc, 'rename_gate/get_gates_truth_table', case, c.get_gates_truth_table)
+            if ok and any(refmodel.tt_from_rows(lib[sub(k)]) != ref[k] for k in net.gates):
+                acc.violation('rename_gate/library-evaluation-differs-after-rename', case, '')
             if sorted(c.get_gate_users(new)) != sorted(net.users()[l] if l not in net.gates[l][1] else [sub(u) for u in net.users()[l]]):
                 # users of the renamed gate, with a self-loop impossible in a DAG
                 acc.violation('rename_gate/users-of-renamed-gate', case, f'{c.get_gate_users(new)}')
@@ -99,6 +107,7 @@ def check_rename(n, gates, outs, blk, acc, net, ref):
 
 def check_replace_inputs(n, gates, outs, blk, acc, net, ref):
     rows = 1 << n
+    _check_replace_inputs_reordered(n, gates, outs, blk, acc, net, ref)
     for assign in itertools.product((None, True, False), repeat=n):
         if all(a is None for a in assign):
             continue
@@ -151,6 +160,52 @@ def check_replace_inputs(n, gates, outs, blk, acc, net, ref):
         if ok and [refmodel.tt_from_rows(r_) for r_ in tt] != want:
             acc.violation('replace_inputs/library-evaluation', case, '')
         acc.outcome('op', ('replace_inputs', len(to_true), len(to_false)))
+
+
+def _check_replace_inputs_reordered(n, gates, outs, blk, acc, net, ref):
+    """Input order differs from storage order (set_inputs / rename of an input) before fixing inputs:
+    the remaining inputs must keep their (current) relative order and the table must be the cofactor."""
+    if n < 2:
+        return
+    for how in ('reversed', 'renamed-first'):
+        for fix in range(n):
+            for val in (True, False):
+                acc.transitions += 1
+                acc.traces += 1
+                case = lambda: {**space.spec_json(n, gates, outs), 'block': blk, 'op': ['replace_inputs(after ' + how + ')', fix, val]}  # noqa: E731
+                c = _build(n, gates, outs, blk)
+                try:
+                    if how == 'reversed':
+                        c.set_inputs(list(reversed(c.inputs)))
+                    else:
+                        first = c.inputs[0]
+                        c.rename_gate(first, first + '_t')
+                        c.rename_gate(first + '_t', first)
+                    cur = list(c.inputs)
+                    lab = cur[fix]
+                    c.replace_inputs([lab] if val else [], [] if val else [lab])
+                except Exception as e:  # noqa: BLE001
+                    acc.violation(f'replace_inputs/raises-{type(e).__name__}', case, repr(e))
+                    continue
+                remaining = [l for l in cur if l != lab]
+                if list(c.inputs) != remaining:
+                    acc.violation('replace_inputs/remaining-inputs', case, f'{c.inputs} expected {remaining}')
+                    continue
+                # reference: same netlist with the reordered input list and the input retyped
+                g2 = dict(net.gates)
+                g2[lab] = ('ALWAYS_TRUE' if val else 'ALWAYS_FALSE', ())
+                want = refmodel.Net(remaining, net.outputs, g2).out_tables()
+                got = refmodel.abstract(c)
+                try:
+                    gv = got.out_tables()
+                except Exception as e:  # noqa: BLE001
+                    acc.violation('replace_inputs/result-not-evaluable', case, repr(e))
+                    continue
+                if gv != want:
+                    acc.violation('replace_inputs/not-the-cofactor', case, f'inputs {got.inputs}')
+                ok, tt = guarded(acc, 'replace_inputs/get_truth_table', case, c.get_truth_table)
+                if ok and [refmodel.tt_from_rows(r_) for r_ in tt] != want:
+                    acc.violation('replace_inputs/library-evaluation', case, '')
 
 
 # -- remove_gate ----------------------------------------------------------------------
@@ -371,6 +426,9 @@ def _blocks_of(n, gates, blk):
     if not blk or not gates:
         return {}
     last = space.label(n, n + len(gates) - 1)
+    if n:
+        x0 = space.label(n, 0)
+        return {'K': ([x0], [last], [last, x0])}
     return {'K': ([], [last], [last])}
 
 
@@ -378,7 +436,11 @@ def _build(n, gates, outs, blk):
     c = space.build(n, gates, outs)
     if blk and gates:
         last = space.label(n, n + len(gates) - 1)
-        c.make_block('K', [last], [last], [])
+        if n:
+            x0 = space.label(n, 0)
+            c.make_block('K', [last], [last, x0], [x0])
+        else:
+            c.make_block('K', [last], [last], [])
     return c
 
 
